@@ -24,6 +24,7 @@ iteration is a well-conditioned computation (see ASSUMPTIONS); no verdict is der
 """
 import functools
 import math
+import os
 from fractions import Fraction
 
 import numpy as np
@@ -782,6 +783,11 @@ def boundary_recipes(tier):
                         side=draw(st.sampled_from(["eq", "eq", "above", "below"])),
                         ord=draw(st.sampled_from([1, "inf"])), miniter=draw(st.sampled_from([0, 1, 1, None])),
                         maxiter=draw(st.sampled_from([1, 2])))
+            if base["what"] == "absdelta":
+                # the second iterate is the exact solution (two active eigen-directions): whether its residual
+                # is exactly zero (gamma <= tiny) is decided by round-off, so the energy criterion is only
+                # probed at the first, exact, iteration
+                base["maxiter"] = 1
         elif fam == "scaled_identity":
             c = draw(st.sampled_from([0.5, 1.0, 2.0, 4.0]))
             base.update(lam=[c] * n, j=[_cj(draw(st.integers(-16, 16)) / 4.0 * draw(st.sampled_from(units)))
@@ -1000,20 +1006,24 @@ def nonpd_recipes(tier):
     return rec()
 
 
+# seconds per shard before the remaining cases are skipped (never a violation); VERIF_C15_BUDGET lets a run on a
+# heavily shared machine finish all cases
+_BUDGET = float(os.environ.get("VERIF_C15_BUDGET", "50"))
+
 SUBS = [
     Sub(name="hpd_stopping", check=check_hpd, strategy=hpd_recipes, quick=128, thorough=12000, shards=16, jax=True,
-        budget_quick=70.0,
+        budget_quick=_BUDGET,
         rule="HPD Q diag(lambda) Q^H (n<=24, kappa<=2^10 quick) x stopping configuration x pytree kind; success => "
              "criterion re-evaluated on the true residual/energy; _cg vs _static_cg on x, info, nit, success; "
              "non-trivial = >= 3 iterations or convergence exactly at maxiter"),
-    Sub(name="boundary_exact", check=check_boundary, strategy=boundary_recipes, quick=64, thorough=4000, shards=8,
-        jax=True, budget_quick=70.0,
+    Sub(name="boundary_exact", check=check_boundary, strategy=boundary_recipes, quick=56, thorough=4000, shards=7,
+        jax=True, budget_quick=_BUDGET,
         rule="exact dyadic diagonal systems: first iterate exactly on / one ulp above / below the resnorm or absdelta "
              "threshold with maxiter 1 or 2, exact one-step and zero-step convergence; eager and compiled must take "
              "the same decision; non-trivial = threshold exactly equal to the iterate's value, miniter beyond an "
              "exact solution, or x0 the exact solution"),
-    Sub(name="nonpd", check=check_nonpd, strategy=nonpd_recipes, quick=160, thorough=8000, shards=16, jax=True,
-        budget_quick=70.0,
+    Sub(name="nonpd", check=check_nonpd, strategy=nonpd_recipes, quick=128, thorough=8000, shards=8, jax=True,
+        budget_quick=_BUDGET,
         rule="integer Hermitian B diag(s) B^H with some s<=0 (indefinite, negative (semi)definite, singular), "
              "_raise_nonposdef both ways: raise -> eager ValueError and compiled info<0 when a non-positive "
              "curvature is met; no raise -> E(x_ret) <= E(x_start), x_ret - x_start = -t r0 with t>0 if the first "
